@@ -1,5 +1,6 @@
 import Ubx.Proofs.CodeWalk
 import Ubx.Proofs.WalkShape
+import Ubx.Proofs.CodeBitsW
 set_option maxRecDepth 10000
 namespace Ubx.Py
 open Ubx Ubx.Gen.Code
@@ -7,20 +8,25 @@ open Ubx Ubx.Gen.Code
 variable (c : WCtx) (cls id : Bytes) (mode : Nat)
 
 theorem walkLike_walkHost : WalkLike c cls id mode (walkHost c cls id mode) :=
-  ⟨rfl, rfl, rfl, rfl, rfl, rfl, rfl, fun _ _ _ _ => rfl, fun _ _ _ _ _ => rfl, fun _ _ _ => rfl, fun _ _ _ => rfl⟩
+  ⟨rfl, rfl, rfl, rfl, rfl, rfl, rfl, fun _ _ _ _ => rfl, fun _ _ _ _ _ => rfl, fun _ _ _ _ _ => rfl, fun _ _ _ _ _ => rfl, fun _ _ _ => rfl⟩
 
 theorem recMcall_other (F f : Nat) (o : AO) (ho : o ≠ .self) (m : Name) (args : List (V AO)) (kw : List (Name × V AO)) (st : ASt) :
     recMcall c cls id mode F f (.host o) m args kw st = aMcall c (.host o) m args kw st := by
   cases f <;> cases o <;> first | exact absurd rfl ho | rfl
 
+theorem recMcall_int (F f : Nat) (n : Int) (m : Name) (args : List (V AO)) (kw : List (Name × V AO)) (st : ASt) :
+    recMcall c cls id mode F f (.int n) m args kw st = aMcall c (.int n) m args kw st := by
+  cases f <;> rfl
+
 theorem walkLike_rec (F f : Nat) : WalkLike c cls id mode (recHost c cls id mode F f) := by
-  refine ⟨rfl, rfl, rfl, rfl, rfl, rfl, rfl, ?_, ?_, ?_, ?_⟩
+  refine ⟨rfl, rfl, rfl, rfl, rfl, rfl, rfl, ?_, ?_, ?_, ?_, ?_⟩
   · intro m args kw st; exact recMcall_other c cls id mode F f .kwargs (by simp) m args kw st
   · intro items m args kw st; exact recMcall_other c cls id mode F f (.dict items) (by simp) m args kw st
+  · intro l m args kw st; exact recMcall_other c cls id mode F f (.flags l) (by simp) m args kw st
+  · intro n m args kw st; exact recMcall_int c cls id mode F f n m args kw st
   · intro args kw st
-    cases f <;> simp [recHost, recMcall, mSetAttr, mSingle, mGroup, mCalc]
-  · intro args kw st
-    cases f <;> simp [recHost, recMcall, mSetAttr, mSingle, mGroup, mCalc]
+    cases f <;> simp [recHost, recMcall, mSetAttr, mSingle, mGroup, mCalc, mBitfield, mBits]
+
 theorem rec_setattr (F f : Nat) (args : List (V AO)) (kw : List (Name × V AO)) (st : ASt) :
     (recHost c cls id mode F (f + 1)).mcall (.host .self) 0x5f7365745f617474726962757465 args kw st
       = runFn (recHost c cls id mode F f) F fn_UBXMessage__set_attribute (.host .self :: args) st := by
@@ -37,6 +43,14 @@ theorem rec_calc (F f : Nat) (args : List (V AO)) (kw : List (Name × V AO)) (st
     (recHost c cls id mode F (f + 1)).mcall (.host .self) 0x5f63616c635f6e756d5f72657065617473 args kw st
       = runFn (recHost c cls id mode F f) F fn_UBXMessage__calc_num_repeats (.host .self :: args) st := by
   simp [recHost, recMcall, mSetAttr, mSingle, mGroup, mCalc]
+theorem rec_bitfield (F f : Nat) (args : List (V AO)) (kw : List (Name × V AO)) (st : ASt) :
+    (recHost c cls id mode F (f + 1)).mcall (.host .self) 0x5f7365745f6174747269627574655f6269746669656c64 args kw st
+      = runFn (recHost c cls id mode F f) F fn_UBXMessage__set_attribute_bitfield (.host .self :: args) st := by
+  simp [recHost, recMcall, mSetAttr, mSingle, mGroup, mCalc, mBitfield]
+theorem rec_bits (F f : Nat) (args : List (V AO)) (kw : List (Name × V AO)) (st : ASt) :
+    (recHost c cls id mode F (f + 1)).mcall (.host .self) 0x5f7365745f6174747269627574655f62697473 args kw st
+      = runFn (recHost c cls id mode F f) F fn_UBXMessage__set_attribute_bits (.host .self :: args) st := by
+  simp [recHost, recMcall, mSetAttr, mSingle, mGroup, mCalc, mBitfield, mBits]
 
 mutual
 /-- nesting depth of groups -/
@@ -82,12 +96,59 @@ theorem shapeOK_ItemShape (it : Item) (h : shapeOK it = true) : ItemShape it := 
       simp only [shapeOK, Bool.and_eq_true, bne_iff_ne] at h
       exact h.1
 
-/-- **The walker as a whole.** Interpreting `_set_attribute`, `_set_attribute_group`, `_set_attribute_single` and
-    `_calc_num_repeats` *together* — each call on `self` runs the translated callee again — computes the model's `wItem`
-    for every well-shaped definition entry of nesting depth `d`, once the call budget covers two calls per nesting level.
-    (ESF-MEAS SET, whose repeat count depends on an attribute's truthiness, is left to the per-method theorem.) -/
+mutual
+/-- generate direction only: every flag of every bitfield has a proper width and an int / bool (or absent) keyword value -/
+def genOK (c : WCtx) : Item → Prop
+  | .bits _ _ fl => ∀ idx, WB.FlagsTyped c idx fl
+  | .group _ _ its => genOKL c its
+  | .attr _ _ _ => True
+def genOKL (c : WCtx) : List Item → Prop
+  | [] => True
+  | i :: is => genOK c i ∧ genOKL c is
+end
+
+theorem genOKL_mem (c : WCtx) : ∀ (its : List Item), genOKL c its → ∀ it ∈ its, genOK c it := by
+  intro its
+  induction its with
+  | nil => intro _ it h; cases h
+  | cons i is ih =>
+    intro h it hit
+    simp only [genOKL] at h
+    rcases List.mem_cons.mp hit with rfl | hm
+    · exact h.1
+    · exact ih h.2 it hm
+
+theorem xty_size (ty : Ty) (h : isXTy ty = true) : ∃ bsiz : Nat, attsiz ty = .ok (bsiz : Int) := by
+  simp [isXTy] at h
+  rcases h with ((((h | h) | h) | h) | h) | h <;> subst h <;> exact ⟨_, rfl⟩
+
+/-- the bitfield callee of `_set_attribute`, interpreted: `_set_attribute_bitfield` over `_set_attribute_bits`, both as written -/
+theorem rec_bitfield_ok (F f : Nat) (n : Name) (ty : Ty) (fl : List (Name × Ty)) (hx : isXTy ty = true)
+    (hgen : c.hasPayload = false → ∀ idx, WB.FlagsTyped c idx fl)
+    (idx : List Nat) (hidx : ∀ i ∈ idx, 0 < i) (off : Nat) (st : ASt) :
+    SpecW idx ((recHost c cls id mode F (f + 1 + 1)).mcall (.host .self) 0x5f7365745f6174747269627574655f6269746669656c64
+        [.tuple [.host (.ty ty), .host (.flags fl)], .int off, idxT idx, .host .kwargs] [] st) (wBits c idx ty fl ⟨off, st.payload, st.env⟩) := by
+  obtain ⟨bsiz, hty⟩ := xty_size ty hx
+  rw [rec_bitfield]
+  cases hp : c.hasPayload
+  · refine WB.set_bitfield_gen cls id mode _ c (walkLike_rec c cls id mode F (f + 1)) hp F ty bsiz hty fl off idx ?_ (hgen hp idx) st
+    intro bitfield bfo key keyt k st' i hw hv
+    rw [rec_bits]
+    exact WB.set_bits_gen cls id mode _ c (walkLike_rec c cls id mode F f) hp F bitfield bfo key keyt k hw idx hidx st' i hv
+  · refine WB.set_bitfield_parse cls id mode _ c (walkLike_rec c cls id mode F (f + 1)) hp F ty bsiz hty fl off idx ?_ st
+    intro bitfield bfo key keyt st'
+    rw [rec_bits]
+    exact WB.set_bits_parse cls id mode _ c (walkLike_rec c cls id mode F f) hp F bitfield bfo key keyt idx hidx st'
+
+/-- **The walker as a whole.** Interpreting `_set_attribute`, `_set_attribute_group`, `_set_attribute_single`,
+    `_calc_num_repeats`, `_set_attribute_bitfield` and `_set_attribute_bits` *together* — each call on `self` runs the
+    translated callee again — computes the model's `wItem` for every well-shaped definition entry of nesting depth `d`, once
+    the call budget covers two calls per nesting level plus three for a leaf (`_set_attribute` → `_set_attribute_bitfield` →
+    `_set_attribute_bits`). Parse direction: no further hypothesis. Generate direction: flag keywords are ints or bools (`genOK`).
+    (ESF-MEAS SET, whose repeat count depends on an attribute's truthiness, is left to the per-method theorem;
+    `_set_attribute_cfgval` is the model's `wCfgVal` here, tied in `CodeCfgVal.lean`.) -/
 theorem rec_item (hcfg : c.cfgval = cfgvalB cls id mode) (hesf : c.esfmeas = esfB cls id mode) (hne : c.esfmeas = false) (F : Nat) :
-    ∀ (d f : Nat), 2 * d + 2 ≤ f → ∀ (it : Item), idepth it ≤ d → shapeOK it = true →
+    ∀ (d f : Nat), 2 * d + 3 ≤ f → ∀ (it : Item), idepth it ≤ d → shapeOK it = true → (c.hasPayload = false → genOK c it) →
     ∀ (items : List Item), itemAt items (Item.key it) = some it → ∀ (idx : List Nat), (∀ i ∈ idx, 0 < i) → ∀ (off : Nat) (st : ASt),
     SpecW idx ((recHost c cls id mode F f).mcall (.host .self) 0x5f7365745f617474726962757465
         [.str (Item.key it), .host (.dict items), .int off, idxT idx, .host .kwargs] [] st)
@@ -95,24 +156,7 @@ theorem rec_item (hcfg : c.cfgval = cfgvalB cls id mode) (hesf : c.esfmeas = esf
   intro d
   induction d with
   | zero =>
-    intro f hf it hd hsh items hit idx hidx off st
-    obtain ⟨f1, rfl⟩ : ∃ f1, f = f1 + 1 := ⟨f - 1, by omega⟩
-    obtain ⟨f2, rfl⟩ : ∃ f2, f1 = f2 + 1 := ⟨f1 - 1, by omega⟩
-    rw [rec_setattr]
-    refine set_attribute_eq c cls id mode _ (walkLike_rec c cls id mode F (f2 + 1)) F items _ it hit (shapeOK_ItemShape it hsh) off idx st ?_
-    cases it with
-    | attr n ty sc =>
-      simp only [CalleeOK]
-      rw [rec_single]
-      exact set_attribute_single_eq c cls id mode _ (walkLike_rec c cls id mode F f2) F n ty sc off idx hidx st
-    | bits n ty fl =>
-      simp only [CalleeOK]
-      intro _
-      rw [rec_single]
-      exact set_attribute_single_eq c cls id mode _ (walkLike_rec c cls id mode F f2) F n ty .one off idx hidx st
-    | group n cnt its => simp [idepth] at hd
-  | succ d ih =>
-    intro f hf it hd hsh items hit idx hidx off st
+    intro f hf it hd hsh hgen items hit idx hidx off st
     obtain ⟨f1, rfl⟩ : ∃ f1, f = f1 + 1 := ⟨f - 1, by omega⟩
     obtain ⟨f2, rfl⟩ : ∃ f2, f1 = f2 + 1 := ⟨f1 - 1, by omega⟩
     obtain ⟨f3, rfl⟩ : ∃ f3, f2 = f3 + 1 := ⟨f2 - 1, by omega⟩
@@ -125,9 +169,29 @@ theorem rec_item (hcfg : c.cfgval = cfgvalB cls id mode) (hesf : c.esfmeas = esf
       exact set_attribute_single_eq c cls id mode _ (walkLike_rec c cls id mode F (f3 + 1)) F n ty sc off idx hidx st
     | bits n ty fl =>
       simp only [CalleeOK]
-      intro _
+      refine ⟨fun _ => ?_, fun _ => ?_⟩
+      · rw [rec_single]
+        exact set_attribute_single_eq c cls id mode _ (walkLike_rec c cls id mode F (f3 + 1)) F n ty .one off idx hidx st
+      · exact rec_bitfield_ok c cls id mode F f3 n ty fl (by simpa [shapeOK] using hsh) (fun hp => hgen hp) idx hidx off st
+    | group n cnt its => simp [idepth] at hd
+  | succ d ih =>
+    intro f hf it hd hsh hgen items hit idx hidx off st
+    obtain ⟨f1, rfl⟩ : ∃ f1, f = f1 + 1 := ⟨f - 1, by omega⟩
+    obtain ⟨f2, rfl⟩ : ∃ f2, f1 = f2 + 1 := ⟨f1 - 1, by omega⟩
+    obtain ⟨f3, rfl⟩ : ∃ f3, f2 = f3 + 1 := ⟨f2 - 1, by omega⟩
+    rw [rec_setattr]
+    refine set_attribute_eq c cls id mode _ (walkLike_rec c cls id mode F (f3 + 1 + 1)) F items _ it hit (shapeOK_ItemShape it hsh) off idx st ?_
+    cases it with
+    | attr n ty sc =>
+      simp only [CalleeOK]
       rw [rec_single]
-      exact set_attribute_single_eq c cls id mode _ (walkLike_rec c cls id mode F (f3 + 1)) F n ty .one off idx hidx st
+      exact set_attribute_single_eq c cls id mode _ (walkLike_rec c cls id mode F (f3 + 1)) F n ty sc off idx hidx st
+    | bits n ty fl =>
+      simp only [CalleeOK]
+      refine ⟨fun _ => ?_, fun _ => ?_⟩
+      · rw [rec_single]
+        exact set_attribute_single_eq c cls id mode _ (walkLike_rec c cls id mode F (f3 + 1)) F n ty .one off idx hidx st
+      · exact rec_bitfield_ok c cls id mode F f3 n ty fl (by simpa [shapeOK] using hsh) (fun hp => hgen hp) idx hidx off st
     | group n cnt its =>
       simp only [CalleeOK]
       rw [rec_group]
@@ -136,7 +200,8 @@ theorem rec_item (hcfg : c.cfgval = cfgvalB cls id mode) (hesf : c.esfmeas = esf
       refine set_attribute_group_eq c cls id mode _ (walkLike_rec c cls id mode F (f3 + 1)) F cnt its idx ?_ ?_ ?_ hcfg hesf off st ?_
       · -- every member, through `self._set_attribute`
         intro a it' hmem off' st'
-        exact ih (f3 + 1) (by omega) it' (Nat.le_trans (idepth_mem its it' hmem) hdL) (shapeOKL_mem its hsL it' hmem) its
+        exact ih (f3 + 1) (by omega) it' (Nat.le_trans (idepth_mem its it' hmem) hdL) (shapeOKL_mem its hsL it' hmem)
+          (fun hp => genOKL_mem c its (by have := hgen hp; simpa [genOK] using this) it' hmem) its
           (shape_itemAt its hsL it' hmem) (idx ++ [a + 1])
           (by intro i hi; rcases List.mem_append.mp hi with h | h
               · exact hidx i h
